@@ -108,10 +108,36 @@ def judge_num(o: Outcome, value: RF) -> Optional[Tuple[str, str]]:
     return None
 
 
+_PROG = None        # set by CaseRunner: the exception hierarchy is read from the analysed program
+
+
+def exc_is_a(name: str, parents) -> bool:
+    """Is exception class `name` one of `parents` or (by the program's own class statements / the builtin
+    hierarchy) a subclass of one?"""
+    import builtins
+    seen = set()
+    stack = [name]
+    while stack:
+        n = stack.pop()
+        if n in parents:
+            return True
+        if n in seen:
+            continue
+        seen.add(n)
+        ci = _PROG.classes.get(n) if _PROG is not None else None
+        if ci is not None:
+            stack.extend(b.split(".")[-1] for b in ci.base_names)
+        else:
+            b = getattr(builtins, n, None)
+            if isinstance(b, type) and issubclass(b, BaseException):
+                stack.extend(x.__name__ for x in b.__mro__[1:] if x is not object)
+    return False
+
+
 def expect_raise(o: Outcome, names, tags=None) -> Optional[Tuple[str, str]]:
     if o.kind != "raise":
         return ("returns instead of raising", f"{o.value!r}; contract: raise {names}")
-    if o.exc.name not in names:
+    if not exc_is_a(o.exc.name, set(names)):
         return (exc_sig(o), f"contract: raise {names}")
     if tags is not None and getattr(o.exc, "tag", None) not in tags:
         return (exc_sig(o), f"contract: raise {names} with origin in {tags}")
@@ -175,6 +201,8 @@ class CaseRunner:
     """Runs a function on a case and files obligations/violations in a Result."""
 
     def __init__(self, prog: Program, res: Result, max_depth=10):
+        global _PROG
+        _PROG = prog
         self.prog = prog
         self.res = res
         self.max_depth = max_depth
